@@ -7,7 +7,7 @@ Mirrors the code after the C06 `fix:` commits (OverflowError of the numeric cons
 Third-party behaviour that is a parameter (`Env`), never an axiom: Python `float(str)` / `float(bytes)`
 (the RealCodec, supplied per case by the harness from CPython itself) and CIMInstanceName.from_wbem_uri
 (property C07's subject; here only "succeeds or raises ValueError").
-Not modelled: nested lists (a list inside a list), tuples, objects with user-defined numeric protocols.
+Not modelled: nested lists (a list inside a list), objects with user-defined numeric protocols.
 -/
 import Pywbem.Model.CimTypes
 import Pywbem.Model.DateTime
@@ -57,12 +57,13 @@ inductive Sc where
   | instance (truthy : Bool)          -- CIMInstance (bool() = has properties)
   | cimClass                          -- CIMClass
   | obj (truthy : Bool)               -- any other object without numeric/str protocol (dict, object(), …)
+  | tuple (truthy : Bool)             -- a tuple: like `obj` for cimvalue(), but an array for `_check_array_parms`
   deriving Repr, Inhabited, DecidableEq
 
 inductive Val where
   | sc (s : Sc)
   | list (l : List Sc)
-  deriving Repr, Inhabited
+  deriving Repr, Inhabited, DecidableEq
 
 /-- third-party behaviour as parameters -/
 structure Env where
@@ -116,6 +117,7 @@ def truthy : Sc → Bool
   | .instance t => t
   | .cimClass => true
   | .obj t => t
+  | .tuple t => t
 
 /-- float(int): correctly rounded (half to even) binary64 bit pattern; none = OverflowError -/
 def natToF64 (n : Nat) : Option Nat :=
